@@ -63,7 +63,30 @@ MemberModules ==
   { << ClassN("Holder", <<>>, FALSE, FALSE, NoType, <<Ctor("Holder", <<>>, <<>>)>> \o [i \in 1..4 |-> PropMembers[p[i]]]),
        ClassN("Worker", <<>>, FALSE, FALSE, NoType, <<Ctor("Worker", <<>>, <<>>)>> \o [i \in 1..4 |-> MethMembers[p[i]]]) >> : p \in Perms4 }
 
+\* Family "enums": an enum-typed parameter in every position of a three-parameter list (constructor, method, static
+\* method, function), an enum result and an enum property; the enum is global or sits in the namespace of the class,
+\* declared in the same block as the class or in an EARLIER block of the re-opened namespace
+EnumModules ==
+  { LET en == EnumN("Shade", "", <<"Dark", "Mid", "Bright">>)
+        ety == Ty((IF inNs THEN <<"geo">> ELSE <<>>) \o <<"Shade">>, <<>>, FALSE, "", FALSE)
+        others == << Arg(DblTy, "level", FALSE, ""), Arg(IntTy, "n", FALSE, "") >>
+        args == SubSeq(others, 1, pos - 1) \o << Arg(ety, "shade", FALSE, "") >> \o SubSeq(others, pos, 2)
+        lamp == ClassN("Lamp", <<>>, FALSE, FALSE, NoType,
+                       << Ctor("Lamp", <<>>, args), Method("set", <<>>, Ret1(VoidTy), args, FALSE), Method("get", <<>>, Ret1(ety), <<>>, TRUE),
+                          Static("Make", <<>>, Ret1(IntTy), args), Prop(ety, "tone", FALSE, "") >>)
+        fn == Func("blend", <<>>, Ret1(ety), args)
+    IN IF ~inNs THEN << en, NsN("geo", << lamp, fn >>) >>
+       ELSE IF reopen = "enum-in-earlier-block" THEN << NsN("geo", << en >>), NsN("geo", << lamp, fn >>) >>
+       ELSE IF reopen = "enum-in-later-block"        \* (the earlier block has an enum and a class of its own)
+       THEN << NsN("geo", << EnumN("Unit", "", <<"Meter", "Foot">>),
+                             ClassN("Ruler", <<>>, FALSE, FALSE, NoType,
+                                    << Ctor("Ruler", <<>>, << Arg(Ty(<<"geo", "Unit">>, <<>>, FALSE, "", FALSE), "unit", FALSE, "") >>) >>) >>),
+               NsN("geo", << en, lamp, fn >>) >>
+       ELSE << NsN("geo", << en, lamp, fn >>) >>
+    : pos \in 1..3, inNs \in BOOLEAN, reopen \in {"no", "enum-in-earlier-block", "enum-in-later-block"} }
+
 Cases == CASE Family = "typedefs" -> TdModules [] Family = "serializable" -> SerModules [] Family = "members" -> MemberModules
+           [] Family = "enums" -> EnumModules
 Init == done = FALSE
 Next == /\ ~done /\ done' = TRUE
         /\ \A cst \in Cases : PrintT(<<"CASE", ToJson([toks |-> RenderItems(cst), cst |-> cst, tree |-> AbsItems(cst)])>>)
